@@ -139,6 +139,8 @@ var aHosts = []string{"example.com", "EXAMPLE.com", "example.com:8080", "h", "ãƒ
 var aPaths = []string{"/foo.git", "/a/b.git", "/foo.tar.gz", "/x.tgz", "/foo", "/a%2Fb.git", "/a b.git", "/Ã©.git", "/foo.zip", "", "/", "/a//b.tgz", "/q.tar.gz/"}
 var aQueries = []string{"", "", "", "?ref=main", "?ref=a&ref=b", "?depth=1", "?archive=tgz", "?archive=tar.gz", "?archive=zip", "?checksum=x", "?a=1&archive=tar.gz", "?ref=v1%2E0",
 	"?x=%zz", "?", "?ref=", "?sshkey=k", "?archive=tgz&archive=tgz", "?archive=tar.gz&checksum=md5:x", "?b=2&a=1", "?ref=a+b",
+	// a query that itself contains "//" or "://" (seed C06-e: the sub-path marker searched past the '?')
+	"?ref=release//2024", "?mirror=https://m.example.net/p.tgz", "?x=a//b", "?ref=a//b//c",
 	"?sshkey=x;ref=main", "?ref=a;ref=b", "?checksum=md5:x;x=1", "?depth=%zz", "?ref=main&", "?&ref=main", "?archive=tgz;checksum=x"}
 var aFrags = []string{"", "", "", "#frag", "#a b", "#a%20b"}
 var aTypes = []string{"", "", "", "git::", "GIT::", "https::", "http::", "hg::", "git::git::", "Git::", "s3::", "::"}
@@ -200,13 +202,13 @@ func genValidRemote(r *Rng) string {
 func isKnownC06(r sourceaddrs.RemoteSource) string {
 	u := r.Package().URL()
 	sp := r.SubPath()
-	// constructor route: a package URL the parsers would never produce (path containing "//" or ending
-	// in "/", malformed query, raw fragment, ...): the package alone does not survive print/parse
-	if p2, err := sourceaddrs.ParseRemotePackage(r.Package().String()); err != nil || p2 != r.Package() {
-		return "addr.make-url-not-parser-canonical"
-	}
 	if sp != "" && u.RawPath != "" {
 		return "addr.rawpath-with-subpath"
+	}
+	if strings.Contains(strings.TrimPrefix(u.Path, "/"), "//") || strings.HasPrefix(u.Path, "//") {
+		// the decoded package path has an empty segment (written %2f%2f, or handed to the constructor):
+		// it prints as "//", which every parser takes for the sub-path marker
+		return "addr.pkgpath-double-slash"
 	}
 	if sp != "" && (u.Fragment != "" || u.RawFragment != "") {
 		// the printed form puts the fragment after the sub-path, and splitting takes it for part of the sub-path
@@ -222,6 +224,11 @@ func isKnownC06(r sourceaddrs.RemoteSource) string {
 		if esc != "/x/"+sp || strings.ContainsAny(sp, "?#%") {
 			return "addr.subpath-needs-escaping"
 		}
+	}
+	// (checked last: the syntactic mechanisms above take precedence) constructor route: a package URL the parsers would never produce (path containing "//" or ending
+	// in "/", malformed query, raw fragment, ...): the package alone does not survive print/parse
+	if p2, err := sourceaddrs.ParseRemotePackage(r.Package().String()); err != nil || p2 != r.Package() {
+		return "addr.make-url-not-parser-canonical"
 	}
 	return ""
 }
@@ -411,7 +418,9 @@ func init() {
 		for k := range rep.OracleFailures {
 			f := &rep.OracleFailures[k]
 			if f.ReqIdx > 0 && f.ReqIdx-1 < len(model) {
-				f.ModelAgrees = model[f.ReqIdx-1] == impl[f.ReqIdx-1]
+				// "not-utf8": the input is outside the model's domain (bytes that are not UTF-8 after
+				// percent-decoding); the model has no opinion, the signature alone decides
+				f.ModelAgrees = model[f.ReqIdx-1] == impl[f.ReqIdx-1] || model[f.ReqIdx-1] == "not-utf8"
 			}
 		}
 		for i := range reqs {
@@ -461,11 +470,35 @@ func parseFinalSafe(rep *Report, s string) (r sourceaddrs.FinalSource, err error
 	return sourceaddrs.ParseFinalSource(s)
 }
 
+// F42's mechanism is white space at the edge of a stored component (a printer that adds white space
+// of its own must not be excused by it)
+func componentHasEdgeSpace(x interface{}) bool {
+	edge := func(c string) bool { return strings.TrimSpace(c) != c }
+	switch v := x.(type) {
+	case sourceaddrs.LocalSource:
+		return edge(v.RelativePath())
+	case sourceaddrs.RegistrySource:
+		return edge(v.SubPath())
+	case sourceaddrs.RegistrySourceFinal:
+		return edge(v.SubPath())
+	case sourceaddrs.RemoteSource:
+		u := v.Package().URL()
+		return edge(v.SubPath()) || edge(u.Path) || edge(u.RawQuery) || edge(u.Fragment) || edge(u.Host)
+	}
+	return false
+}
+
 func checkRoundTripRemote(rep *Report, x sourceaddrs.RemoteSource, how string, reqIdx int) {
 	s := x.String()
 	y, err := sourceaddrs.ParseSource(s)
 	sig := isKnownC06(x)
-	if sig == "" && strings.TrimSpace(s) != s {
+	if sig == "addr.make-url-not-parser-canonical" && !strings.HasPrefix(how, "MakeRemoteSource") {
+		// that finding is about URLs handed to the constructor; its predicate asks the implementation
+		// itself whether the package re-parses, so on any other route it would excuse exactly the
+		// failure under judgement (seed C06-e)
+		sig = ""
+	}
+	if sig == "" && strings.TrimSpace(s) != s && componentHasEdgeSpace(x) {
 		sig = "addr.edge-whitespace"
 	}
 	if err != nil {
@@ -534,7 +567,7 @@ func checkRoundTripSource(rep *Report, x sourceaddrs.Source, how string) {
 	if rs, ok := x.(sourceaddrs.RegistrySource); ok && strings.TrimSpace(rs.SubPath()) != rs.SubPath() {
 		// a registry sub-path is printed raw; leading/trailing white space does not survive the parser's trim check
 		sig = "addr.subpath-needs-escaping"
-	} else if strings.TrimSpace(s) != s {
+	} else if strings.TrimSpace(s) != s && componentHasEdgeSpace(x) {
 		// the kind-specific parsers, relative resolution and the constructor do not look at edge white
 		// space; ParseSource refuses a string that has any
 		sig = "addr.edge-whitespace"
